@@ -320,7 +320,31 @@ func c12InlineSize(pi, padKind, n, si int) core.Result {
 	return core.Okay(true, itoa(len(out)))
 }
 
+// c12FilterSafe: a built-in filter applied to an untrusted multi-line value never turns it into trusted markup: what
+// is printed in an html template is inert once the tags the filter itself inserts (<br />, <br>) are taken out.
+func c12FilterSafe(fi, pi, ni int) core.Result {
+	f := c02FilterNames()[fi]
+	payload := "l1 " + c12Payloads[pi] + "\nl2 " + c12Payloads[pi] + "\r\nl3"
+	name := []string{"t.html", "t", "t.unknownext", "{{ x|" + f + " }}"}[ni]
+	env := twig.New(&c12Loader{map[string]string{"t.html": "{{ x|" + f + " }}", "t": "{{ x|" + f + " }}", "t.unknownext": "{{ x|" + f + " }}"}})
+	out, err, pan := tryExec(env, name, map[string]stick.Value{"x": payload})
+	if pan != "" {
+		return core.Violation("panic", fmt.Sprintf("{{ x|%s }} panicked: %s", f, pan))
+	}
+	if err != nil || f == "raw" {
+		return core.Okay(false, "n/a")
+	}
+	stripped := strings.NewReplacer("<br />", "", "<br/>", "", "<br>", "").Replace(out)
+	if msg := c12Escaper("html").alphabet(stripped); msg != "" {
+		return core.Violation("unescaped", fmt.Sprintf("{{ x|%s }} in %q with x = %q renders %q, which is not inert for html: %s", f, name, payload, out, msg))
+	}
+	return core.Okay(true, f)
+}
+
 func c12Run(c core.Case) core.Result {
+	if c.Fam == "filtersafe" {
+		return c12FilterSafe(c.N[0], c.N[1], c.N[2])
+	}
 	if c.Fam == "inlinesize" {
 		return c12InlineSize(c.N[0], c.N[1], c.N[2], c.N[3])
 	}
@@ -566,6 +590,15 @@ func c12Levels(tier string) []core.Level {
 						for _, m := range []int{0, 1, 2} {
 							emit(core.Case{Fam: "print", N: []int{pos, 0, pi, ni, m, 0, 100}})
 						}
+					}
+				}
+			}
+		}},
+		{Name: "every built-in filter applied to an untrusted three-line value (13 payloads, LF and CR LF) printed in html / extension-less / unknown-extension / inline templates: inert apart from the line-break tags a filter inserts", Gen: func(emit func(core.Case)) {
+			for fi := range c02FilterNames() {
+				for pi := range c12Payloads {
+					for ni := 0; ni < 4; ni++ {
+						emit(core.Case{Fam: "filtersafe", N: []int{fi, pi, ni}})
 					}
 				}
 			}
